@@ -5,11 +5,12 @@ INSTRUMENT = ["internal/loadbalancer", "internal/circuitbreaker", "internal/rate
 
 CB = "internal/circuitbreaker"
 LB = "internal/loadbalancer"
+RL = "internal/ratelimiter"
 
 ENGINES = [
-    dict(name="S", path="engine/shim/vrt", serves_properties=["C07", "C08"],
+    dict(name="S", path="engine/shim/vrt", serves_properties=["C07", "C08", "C09"],
          kind_free_text="controlled cooperative scheduler + stateless replay DFS with preemption bounding over the real Helios code (sync/atomic/time/go/select rewritten onto shims by vgen)"),
-    dict(name="H", path="engine/shim/vh/hrun.go", serves_properties=["C07", "C08"],
+    dict(name="H", path="engine/shim/vh/hrun.go", serves_properties=["C07", "C08", "C09"],
          kind_free_text="explicit-state breadth-first search over event histories of the real objects under a virtual clock, reflective state fingerprint for deduplication, reference-model / monitor oracle on every transition"),
 ]
 
@@ -38,6 +39,19 @@ CHECKS = {
         jobs=[
             dict(name="c08s", part="S", pkg=LB, run="TestVerifC08S", mode="instr", shards=dict(quick=15, thorough=16)),
             dict(name="c08h", part="H", pkg=LB, run="TestVerifC08H", mode="instr", shards=dict(quick=16, thorough=16)),
+        ],
+        assumptions=[],
+    ),
+    "C09": dict(
+        level="model_checking",
+        engine="S+H",
+        technique="exhaustive enumeration of all arrival histories (virtual time) of the real token-bucket limiter checked against the stated bounds + exhaustive preemption-bounded schedule exploration of concurrent arrivals and cleanup",
+        text="All arrival histories (1-4 clients, three clock steps, max_tokens 1..5) up to the stated length are run on the real Allow under a virtual clock and judged by the statement's own bounds (every sliding window, new-client burst, idle refill, isolation as a differential between a history and its per-client projection); the same through ServeHTTP over seven spellings of the client address (429 <=> not forwarded); all interleavings up to the preemption bound of 2-3 goroutines hitting one bucket, bucket creation races and the hourly cleanup must admit exactly what a sequential order admits.",
+        note="Oracles are the bounds of the statement, not the implementation's algorithm; clock steps are 0.4/1/3.1 refill periods; sync.Map is modelled as an insertion-ordered map with a scheduling point per operation.",
+        jobs=[
+            dict(name="c09s", part="S", pkg=RL, run="TestVerifC09S", mode="instr", shards=dict(quick=6, thorough=16)),
+            dict(name="c09sys", part="Sys", pkg=LB, run="TestVerifC09Sys", mode="instr", shards=dict(quick=8, thorough=8)),
+            dict(name="c09h", part="H", pkg=RL, run="TestVerifC09H", mode="instr", shards=dict(quick=6, thorough=9)),
         ],
         assumptions=[],
     ),
